@@ -14,4 +14,14 @@ CHECKS = {
         "note": "Trusted: TLC's evaluation of the reference operators, the case decoder/renderer in harness/cases. Scope: <=2 docs exhaustive, <=4 docs / AST depth <=2 sampled; values over a small alphabet; timestamps 1..3.",
         "technique": "TLA+ reference operator (QueryRef) + TLC case enumeration (exhaustive + -simulate) replayed into the real engine",
     },
+    "C13": {
+        "text": "Pattern.tla transcribes token.Table.SelectEntries, Narrow (both binary searches) and literal/wildcard check and TLC proves on the bounded scope that the narrowed sealed-dictionary search equals the glob reference for every dictionary, block layout and pattern (AlgoEqualsRef); every state is emitted with the reference token set and replayed into pattern.Search (unordered, ordered) and the real token.Table/token.Provider/BlockLoader path; range semantics (numeric iff every given end is a number) are replayed the same way.",
+        "note": "Trusted: TLC, the hand transcription being faithful (cross-checked by the replay), QueryRef's numeric syntax subset. Scope: alphabet {a,b}, tokens <=3 (match family <=5), <=3 (thorough 4) tokens per dictionary in every block layout, patterns <=3 terms (match family <=4/5 terms, text <=3), end palette of 9 strings.",
+        "technique": "TLA+ transcription of the narrowing algorithm checked against a glob reference by TLC (exhaustive), cases replayed into pattern/token packages",
+    },
+    "C06": {
+        "text": "AggCases.tla defines histogram and aggregation results at set level (exact scaled-integer arithmetic) and the transcription of SamplesContainer.InsertNTimes/Merge; TLC checks MergeLaw (folding per-part summaries in either order = summary of the whole) on every explored (corpus, partition) and emits cases; the driver builds one real fraction per part (sealed/active mixed) and compares the iterative searcher (fpi=1 and all), a manual reverse-order MergeQPRs and the proxy path (store handler, buildSearchResponse/responseToQPR) with the reference.",
+        "note": "Trusted: TLC, exact dyadic quantile palette, value palette limited by TLC's 32-bit integers (values beyond +-1e7 are not generated, so int64-overflow style defects in min/max initialisation are out of reach), reservoir overflow (>8096 samples) not exercised. Per-group not-exists counters of time-binned field+group aggregations are not compared.",
+        "technique": "TLA+ reference operators + merge-law invariant checked by TLC (exhaustive small scope + -simulate), cases replayed into real fractions and the proxy merge path",
+    },
 }
